@@ -316,6 +316,9 @@ def _run_py_case(pid, tier, c, mod, out):
 def units(pid, tier):
     sp = pycodec.c_space(tier)
     idx = list(range(len(sp)))
+    if tier == "thorough":
+        # every state of the quick space (everything) and every third of the additional thorough states (values, bounds, constants; lighter sweeps)
+        idx = [i for i in idx if copt.full_sweeps_for(sp[i], tier) or i % 3 == 0]
     return [("BIG", pid, tier)] + [(pid, tier, idx[i:i + BATCH]) for i in range(0, len(idx), BATCH)]
 
 
@@ -341,7 +344,7 @@ def main(pid, tier):
              "backgrounds) on standard mode and on -O little/big for traditional states, Python out-of-range integers v+k*2^n, negative for "
              "unsigned; non-trivial = an input with one leaf overdriven",
         exhaustive=True,
-        bound="SING(%s) u COMB(2) u TREE(%d) u HOMONYMS; full sweeps for structs <= %d bytes (thorough: on the states of the quick space)" % (tier, 4 if tier == "quick" else 5, copt.sweep_limit(tier)),
+        bound="SING(%s) u COMB(2) u TREE(%d) u HOMONYMS; full sweeps for structs <= %d bytes (thorough: all states of the quick space with full sweeps + every third additional state)" % (tier, 4 if tier == "quick" else 5, copt.sweep_limit(tier)),
     )
     return finish(pid, tier, acc, cov, t0,
                   assumptions=["reference model bpmc/ref.py", "guard pages + ASan/UBSan observe every out-of-bounds access of the executed paths",
